@@ -73,6 +73,29 @@ class C17(scen.WorldProp):
                   "bot": bot, "rhythm": scen.rhythm_cfg("wait", inertia=1.0 if server else 0.5, peal_speed=ps)}
             yield {"k": "world", "scenario": sc, "final_size": cur, "queued": queued, "server": server}
 
+        # server mode: a selection discarded by a shrink, the tower grown back, the same selection made again
+        for _ in range(12 if tier == "quick" else 120):
+            N = rng.choice([6, 8, 10])
+            qs = rng.randint(4, N)
+            small = rng.randint(max(1, qs - 3), qs - 1)
+            t0 = 1000.0 + rng.random()
+            queued = {"type": "pn", "stage": qs, "method": "x1" if qs % 2 == 0 else gens.BELLS[qs - 1] + ".1",
+                      "bob": [[0, "14"]], "single": [[0, "1234"]], "start_index": 0, "start_row": None}
+            js = {"type": "method", "stage": qs, "notation": queued["method"], "bob": {"0": "14"}, "single": {"0": "1234"}}
+            sel = {"m": "row_gen", "json": js, "model_gen": queued}
+            events = [[t0 - 2.0, "msg", dict(sel)], [t0 - 1.5, "msg", {"m": "size_change", "size": small}],
+                      [t0 - 1.0, "msg", {"m": "size_change", "size": N}]]
+            if rng.random() < 0.75:
+                events.append([t0 - 0.6, "msg", dict(sel)])
+            events.append(call(t0, LOOK_TO))
+            I = scen.interval(60, N)
+            sc = {"start": 999.0, "end": t0 + 3 + 5 * I * (N + 1), "tower_size": N, "events": events,
+                  "on_join": scen.humans_on_join([], "Wheatley", list(range(1, 17))),
+                  "bot": scen.bot_cfg({"type": "placeholder"}, up_down_in=True, stop_at_rounds=True, user_name="Wheatley",
+                                      server_id=3),
+                  "rhythm": scen.rhythm_cfg("wait", inertia=1.0, peal_speed=60)}
+            yield {"k": "world", "scenario": sc, "final_size": N, "queued": queued, "server": True}
+
     def nontrivial(self, req, reply):
         sc = req["scenario"]
         return len(sc["events"]) > 1 or sc["bot"]["gen"].get("start_row") is not None \
@@ -98,6 +121,7 @@ class C17(scen.WorldProp):
                 m = ev[2]
                 if m["m"] == "row_gen":
                     seen = True
+                    discarded = False          # (selected again: queued afresh)
                 elif m["m"] == "size_change":
                     if m["size"] != size:
                         size = m["size"]
